@@ -252,8 +252,9 @@ func ops() []operation {
 		if i == nil {
 			return false
 		}
-		b := gedcom.NewNode(gedcom.TagBirth, "", "")
-		b.AddNode(gedcom.NewDateNode("1 Jan 1900"))
+		// built without AddNode: adding a node anywhere drops the process-wide NodesWithTag cache,
+		// and this operation is about SetNodes doing that itself
+		b := gedcom.NewNode(gedcom.TagBirth, "", "", gedcom.NewDateNode("1 Jan 1900"))
 		i.SetNodes(gedcom.Nodes{gedcom.NewNameNode("Newly /Set/"), b})
 		return true
 	})
